@@ -223,15 +223,13 @@ def reshape(a: AxArr, shape: Any) -> Any:
         prod *= s
     if prod != total:
         raise Raised('TypeError')
-    old = [(l, s) for l, s in a.axes if not (s == 1 and not l)]
-    old_ns = [(l, s) for l, s in old if s != 1]
+    # axes of size one carry no data order: whatever label they had is irrelevant to where the values end up
+    old_ns = [(l, s) for l, s in a.axes if s != 1]
     new_ns = [s for s in shape if s != 1]
     if [s for _, s in old_ns] != new_ns:
         if len(shape) == 1:
             return Flat(a)
         raise Undecided('reshape merges or splits axes')
-    if any(l for l, s in old if s == 1):
-        raise Undecided('reshape around labelled axes of size one')
     it = iter(old_ns)
     return AxArr(tuple((frozenset(), 1) if s == 1 else next(it) for s in shape))
 
@@ -400,6 +398,21 @@ class Interp:
                 self.degraded.append(f'{getattr(f.node, "name", "<lambda>")}: {e}')
                 return UNK
         if isinstance(f, ClassRef):
+            names = self._record_fields(f.cls)
+            if names is not None:
+                if len(args) > len(names) or any(k not in names for k in kwargs):
+                    raise Raised('TypeError', node)
+                attrs = dict(zip(names, args))
+                attrs.update(kwargs)
+                for n in names:
+                    if n not in attrs:
+                        v = self._class_level_value(f.cls, n)
+                        if v is None:
+                            raise Raised('TypeError', node)
+                        attrs[n] = self.eval(v, Env(module_of(v)))
+                obj = Obj(f.cls, attrs)
+                obj.attrs['__record_fields__'] = tuple(names)
+                return obj
             return UNK
         if isinstance(f, Ref):
             return self.external(f.path, args, kwargs)
@@ -588,6 +601,21 @@ class Interp:
             return getattr(v, name)
         return UNK
 
+    def _record_fields(self, cls: ClassInfo) -> list[str] | None:
+        """Field names of a plain record class (typing.NamedTuple, or a dataclass without __init__), else None."""
+        ext = {b.split('.')[-1] for k in cls.mro for b in k.external_bases}
+        decos = {d.split('.')[-1] for d in cls.decorators}
+        if 'NamedTuple' not in ext and 'dataclass' not in decos:
+            return None
+        if any('__init__' in k.own or '__new__' in k.own for k in cls.mro):
+            return None
+        names: list[str] = []
+        for k in reversed(cls.mro):
+            for f in k.own_fields:
+                if f.name not in names:
+                    names.append(f.name)
+        return names or None
+
     def _class_level_value(self, cls: ClassInfo, name: str) -> ast.AST | None:
         for k in cls.mro:
             node = k.own.get(name)
@@ -742,6 +770,8 @@ class Interp:
         return res
 
     def iterate(self, v: Any) -> list:
+        if isinstance(v, Obj) and '__record_fields__' in v.attrs:
+            return [v.attrs[n] for n in v.attrs['__record_fields__']]
         if isinstance(v, Obj):
             r = self.table.resolve(v.cls, '__iter__')
             if r is None or not isinstance(r.node, ast.FunctionDef):
@@ -774,6 +804,8 @@ class Interp:
                 for t in target.elts:
                     self.assign(t.value if isinstance(t, ast.Starred) else t, UNK, env)
                 return
+            if isinstance(value, Obj) and '__record_fields__' in value.attrs:
+                value = self.iterate(value)
             if not isinstance(value, (tuple, list, range)):
                 raise Undecided('unpacking an abstract value')
             vals = list(value)
@@ -1104,6 +1136,8 @@ class Interp:
             return UNK
         if isinstance(v, AxArr):
             return index(v, k)
+        if isinstance(v, Obj) and '__record_fields__' in v.attrs and isinstance(k, (int, slice)):
+            return self.iterate(v)[k]
         if isinstance(v, (tuple, list, dict, str, range, Counter)):
             if not _concrete(k):
                 raise Undecided('abstract subscript')
